@@ -317,6 +317,35 @@ Definition save2 (c : cfg) (f f2 : option fault) (s : fs) : save_out := run_plan
 
 Definition save (c : cfg) (f : option fault) (s : fs) : save_out := save2 c f None s.
 
+(* ---- close() as a call of its own ------------------------------------------------------
+   yaml-merge (`with open(args.output, 'w') as out_file: out_file.write(text)`,
+   yaml_merge.py 347-348) and eyaml-rotate-keys (`with open(yaml_file, 'w') as yaml_dump:
+   yaml.dump(...)`, eyaml_rotate_keys.py 196-197) leave their `with` block - normally, or with
+   the exception of a failed write / dump passing through - by the implicit close() of the
+   handle.  That close() is one more call that can fail (the SECOND failure of a run whose write
+   already failed, or the only one).  It has no handler around it either: the run ends with a
+   traceback.  [Before]: close() raises, the bytes are what the write left; [Mid]: the flush got
+   half way (pessimistic: Partial).  A run that stopped before the handle existed (the last
+   call attempted is not a write / dump on a handle of a `with` block) closes nothing.
+   yaml-set's handles are closed inside its own handlers (set_restore_ops) and are not covered. *)
+Definition closing_handle (tr : list op) : option role :=
+  match last tr (Exists Target) with
+  | WriteText r => Some r
+  | Dump r _ => Some r
+  | _ => None
+  end.
+
+Definition close_out (m : option fmode) (o : save_out) : save_out :=
+  match closing_handle (o_trace o), m with
+  | Some r, Some Mid => mkout (upd (o_fs o) r (Some Partial)) (o_trace o) SCrash
+  | Some r, Some Before => mkout (o_fs o) (o_trace o) SCrash
+  | _, _ => o
+  end.
+
+(* save, then the close() of the `with` block under its own fault *)
+Definition save_close (c : cfg) (f : option fault) (m : option fmode) (s : fs) : save_out :=
+  close_out m (save c f s).
+
 (* Start states: the target holds its original bytes (or does not exist, for a
    yaml-merge --overwrite to a new name), a .bak may be left from earlier, the
    --output name may be taken. *)
